@@ -27,7 +27,7 @@ def run(ctx):
         casep = vf.gen_cases(ctx, "PVM_MemGen", {"Tier": '"%s"' % ctx.tier}, timeout=1500, heap="8g")
         cases = [json.loads(l) for l in vf.read_lines(casep)]
         rng = vf.Rng(ctx.seed + 5)
-        cap = 600 if q else 0
+        cap = 0
         if cap and len(cases) > cap:
             cases = [c for c in cases if rng.n(len(cases)) < cap]
         for i, c in enumerate(cases):
@@ -37,7 +37,7 @@ def run(ctx):
                 c["tag"] += "+n19"
             c["fx"] = []
         # seeded random programs biased to memory instructions and sbrk
-        for i in range(100 if q else 4000):
+        for i in range(300 if q else 4000):
             prog, starts = pvmgen.random_program(rng, clean=rng.n(3) != 0, ops=MEMOPS)
             st = pvmgen.base_state(rng, gas=rng.pick([3, 8, 13, 30]))
             if rng.n(4) == 0:
@@ -48,7 +48,7 @@ def run(ctx):
     ctx.cov["evaluations"] = len(lines)
     ctx.cov["distinct_nontrivial"] = vf.distinct_count([l for l in lines if '"k":"seg"' in l],
                                                        key=lambda r: [r["prog"]["code"], r["pre"]["regs"], r["pre"]["acc"], r["pre"]["hl"]])
-    ctx.cov["rule"] = ("cases = TLC-enumerated (opcode, address) and sbrk scripts (quick: sampled to 600) + seeded random load/store/sbrk programs; "
+    ctx.cov["rule"] = ("cases = TLC-enumerated (opcode, address) and sbrk scripts (whole partition in both tiers) + seeded random load/store/sbrk programs; "
                        "non-trivial = distinct (code, registers, access map, heap limit) runs")
     ctx.cov["samples"] = [json.loads(x) for x in lines[:1] + lines[-1:]]
     vf.validate_trace(ctx, "PVM_Trace", lines, constants={"Mode": '"both"'}, shard=220 if q else 1000, par=14, timeout=3000,
